@@ -14,7 +14,7 @@ LEVEL = "exploration"
 RULE = ("One Hypothesis binary draw is decoded into (grammar pattern, base state = config version, 0..30 tags: valid versions "
         "of the pattern below/equal/above the config value, PEP 440-equal spellings accepted by the same pattern (optional "
         "zero group written out, leading zeros), versions of other schemes, junk, near-misses (valid + trailing text), "
-        "calendar-impossible dates; each tag reachable from HEAD or on another branch only; tag scope default/global/branch; "
+        "calendar-impossible dates; each tag reachable from HEAD or on another branch only; tag scope default/global/branch given in the config, by --tag-scope or both; "
         "--ignore-vcs-tag on/off; bump flags). Bulk: fake git serving `tag --list` / `tag --list --merged`; sample: real git "
         "repositories with the tags on two branches. Oracle (reference model): M = in-scope tags with a full reference parse; "
         "expected start = config value if --ignore-vcs-tag or M is empty, max(M) for global/branch, max(config, max(M)) for "
@@ -103,7 +103,12 @@ def build(d, real=False):
         if t not in [x[0] for x in tags]:
             tags.append([t, d.chance(2, 3)])
     flags, date = projgen.gen_bump(d, nodes, state)
-    return {"ast": nodes, "state": state, "old": text, "tags": tags, "scope": d.choice(["default", "global", "branch"]),
+    scope = d.choice(["default", "global", "branch"])
+    # the scope may come from the config, from --tag-scope, or from both (the command line wins)
+    how = d.choice(["config", "config", "cli", "both"])
+    cfg_scope = scope if how == "config" else None if how == "cli" else d.choice(["default", "global", "branch"])
+    cli_scope = None if how == "config" else scope
+    return {"ast": nodes, "state": state, "old": text, "tags": tags, "scope": scope, "cfg_scope": cfg_scope, "cli_scope": cli_scope,
             "ignore": d.chance(1, 4), "flags": flags, "date": date}
 
 
@@ -126,30 +131,35 @@ def judge(case, run, real):
     """run(args) -> bv.Res"""
     ast = case["ast"]
     pattern = pattern_str(ast)
+    # `show` has no --tag-scope option: it follows the config; `update` follows the command line if given
+    show_case = dict(case, scope=case.get("cfg_scope") or "default") if "cfg_scope" in case else case
+    expect_show, _ = expectation(show_case)
     expect, M = expectation(case)
     all_tags = [t for t, _m in case["tags"]]
     nonmatching = [t for t in all_tags if t not in M and not ref_parse_all(ast, t)]
     nt = len(M) >= 2 and len(nonmatching) >= 1
-    classes = ["scope:" + case["scope"]]
+    classes = ["scope:" + case["scope"]] + (["scope-from-command-line"] if case.get("cli_scope") else [])
     if case["ignore"]:
         classes.append("ignore-vcs-tag")
     sig = {"scope": case["scope"], "ignore": case["ignore"], "real": real}
     ign = ["--ignore-vcs-tag"] if case["ignore"] else []
     r = run(["show", "--no-fetch"] + ign)
     detail = {"pattern": pattern, "config_version": case["old"], "tags": case["tags"], "scope": case["scope"], "ignore": case["ignore"],
-              "expected_one_of": expect, "show": r.summary(500)}
+              "cfg_scope": case.get("cfg_scope"), "cli_scope": case.get("cli_scope"),
+              "expected_one_of": expect, "expected_by_show": expect_show, "show": r.summary(500)}
     if r.crashed:
         return viol("show-crashes", dict(sig, exc=(r.exc or "")[:40]), detail, nt=nt, classes=tuple(classes))
     cur = r.field("Current Version", "out")
     if r.exit != 0 or cur is None:
         return viol("show-fails", sig, detail, nt=nt, classes=tuple(classes))
-    if cur not in expect:
+    if cur not in expect_show:
         rel = "config" if cur == case["old"] else "tag" if cur in all_tags else "other"
         return viol("wrong-current-version:reported-" + rel, dict(sig, reported=rel), dict(detail, reported=cur), nt=nt, classes=tuple(classes))
     flags = dict(case["flags"])
     flags["pin_date"] = False
     flags["date"] = case["date"]
-    u = run(["update", "--no-fetch", "--dry"] + ign + bv.flag_args(flags))
+    cli_scope = ["--tag-scope", case["cli_scope"]] if case.get("cli_scope") else []
+    u = run(["update", "--no-fetch", "--dry"] + cli_scope + ign + bv.flag_args(flags))
     detail["update"] = u.summary(500)
     if u.crashed and "max lexical version reached" in (u.exc or ""):
         return ok(nt=False, classes=tuple(classes + ["build-id-at-documented-maximum"]))
@@ -162,12 +172,15 @@ def judge(case, run, real):
             return viol("wrong-start-version-in-update", sig, dict(detail, reported=oldv), nt=nt, classes=tuple(classes))
         if newv in all_tags:
             return viol("new-version-equals-existing-tag", sig, dict(detail, new_version=newv), nt=nt, classes=tuple(classes))
+        if not pep440ref.key(newv) > pep440ref.key(oldv):
+            return viol("new-version-not-greater-than-start-version", sig, dict(detail, new_version=newv, start=oldv), nt=nt, classes=tuple(classes))
     return ok(nt=nt, classes=tuple(classes))
 
 
 def config_text(case):
+    cfg_scope = case["cfg_scope"] if "cfg_scope" in case else case["scope"]
     return projgen.toml_config({"current_version": case["old"], "version_pattern": pattern_str(case["ast"]),
-                                "options": {"tag_scope": case["scope"]}, "files": []})
+                                "options": {"tag_scope": cfg_scope} if cfg_scope else {}, "files": []})
 
 
 def check_fake(case):
